@@ -11,6 +11,8 @@ RULE = ('case = (strategy, MIN_TIMESTAMP_LAG, bounded/unbounded cache, store/dra
         'and every pass but the last covers the metrics present at its start; max/bucketmax: drained metric holds the maximum '
         'count at choose time; timesorted with lag: drained metric\'s oldest datapoint is older than the lag; non-trivial = '
         'execution with >=2 metrics drained and >=1 thread switch; distinct = distinct interleavings per history')
+RULE_MORE = (" Also: the shutdown hook zeroing the lag, series named '', queues of 1000+ datapoints, timestamps outside any calendar, cache queries for absent series, and the C02 conservation oracle.")
+RULE = RULE + RULE_MORE
 EXHAUSTIVE = {'quick': False, 'thorough': False}
 EXHAUSTIVE_OVER = 'all schedules with <=1 preemption of every generated history (<=2 for short histories in thorough)'
 ASSUMPTIONS = ['MIN_TIMESTAMP_LAG is honoured by the timesorted strategy only (documented in carbon.conf.example); the lag '
